@@ -18,7 +18,13 @@ META = {
             "function is regenerated: the statement after the wait must be `return try_pop_n<false,...>(callback, num);` and "
             "the last of the body); executed with a slow producer callback holding an unpublished index while later indices "
             "are published (H ops): the call must return by its deadline with the ready prefix (stuck / mon-timed / "
-            "mon-prefix otherwise).",
+            "mon-prefix otherwise).  Public overloads: every forwarded template-argument list (value / pointer / iterator "
+            "overloads, the overloads without template arguments, the callback overloads handing <WAIT, WAKE, PUSH_OR_POP> "
+            "resp. <CONCURRENT, WAKE, PUSH_OR_POP> to the cores) is regenerated; the model runs `lower` of each client call, "
+            "c02_entry_points_forward_flags proves lower = the call as written, so c02_no_lost_wakeup_any_entry / "
+            "c02_no_deadlock_any_entry hold for programs written against any overload; the explorer reports a program whose "
+            "pairing rules hold as written but not after forwarding (wrapper-flags), the harness calls all overloads with "
+            "asymmetric wait / wake pairings.",
     "note": "All statements are theorems, incl. c02_no_deadlock (balanced programs of blocking calls with one-sided threads "
             "always have an enabled thread while a thread is unfinished; proved from the ticket accounting: every issued "
             "ticket is published or held, counters = elements of the calls that obtained tickets).  The step from 'no "
